@@ -194,7 +194,10 @@ pub fn convert_amount<'ctx>(
     date: NaiveDate,
 ) -> Result<Amount<'ctx>, ConversionError<'ctx>> {
     let mut result = Amount::zero();
-    for v in amount.iter() {
+    // convert in commodity order, so that the reported missing rate is always the same one.
+    let mut values: Vec<SingleAmount<'ctx>> = amount.iter().collect();
+    values.sort_unstable_by_key(|v| v.commodity.as_str());
+    for v in values {
         result += price_repos.convert_single(v, commodity_with, date)?;
     }
     Ok(result)
